@@ -287,6 +287,31 @@ func ruleC03(c *Ctx, r *Result) {
 			okDom := head != nil && head.Dominates(addEntry.Block()) && head.Dominates(addString.Block()) &&
 				!reachableFrom(addEntry.Block(), nil)[cmp.Block()] && !reachableFrom(addString.Block(), nil)[cmp.Block()]
 			r.Check(okDom, "C03.1", c.Name(ltp)+"#duplicate-name-check", c.InstrPos(cmp), "the complete scan of existing names precedes AddString and AddEntry")
+			// the scan compares EVERY entry: each iteration of its loop reaches the comparison (or a failing return); an entry
+			// that is skipped can carry the requested name
+			var hdr *ssa.BasicBlock
+			for b := cmp.Block(); b != nil && hdr == nil; b = b.Idom() {
+				for _, p := range b.Preds {
+					if b.Dominates(p) && p != b {
+						hdr = b
+					}
+				}
+			}
+			if hdr != nil {
+				loop := naturalLoop(hdr)
+				skip := ""
+				for _, b := range ltp.Blocks {
+					if !loop[b] || b == hdr {
+						continue
+					}
+					for _, sx := range b.Succs {
+						if sx == hdr && !cmp.Block().Dominates(b) {
+							skip = c.InstrPos(b.Instrs[len(b.Instrs)-1])
+						}
+					}
+				}
+				r.Check(skip == "", "C03.1", c.Name(ltp)+"#duplicate-scan-compares-every-entry", firstNonEmpty(skip, c.InstrPos(cmp)), "every iteration over the parent's entries reaches the name comparison; an entry is skipped at "+skip)
+			}
 		}
 	}
 	// C03.2 who may call
@@ -1414,6 +1439,32 @@ func init() {
 		}
 		if n < 3 {
 			r.Errorf("C10.6: only %d header-writing call sites below the cached-header paths", n)
+		}
+	})
+}
+
+func init() {
+	reg := registry["C03"]
+	reg.Meta.Rules["C03.11"] = "a rejected creation leaves no path behind: in the link/group creation entry points and linkToParent no logical failure exit is reachable after the parent group, the registry or a target header was changed (same analysis as C16.1, restricted to the name space)"
+	except("C03", "C03.11", "hdf5.FileWriter.CreateHardLink#error-return(hdf5.FileWriter.linkToParent)#after-mutation",
+		"rollback path: the reference count is decremented and the header rewritten before this return (pairing checked by C16.2); the link itself was not inserted")
+	reg.Rules = append(reg.Rules, func(c *Ctx, r *Result) {
+		isMut := func(name string) bool {
+			f := c.FnOpt(name)
+			return f != nil && shortPkg(fnPkgPath(f)) == "hdf5" && c.mutates(f, 0)
+		}
+		n := 0
+		for _, name := range []string{"hdf5.FileWriter.CreateHardLink", "hdf5.FileWriter.CreateSoftLink", "hdf5.FileWriter.CreateExternalLink",
+			"hdf5.FileWriter.CreateGroup", "hdf5.FileWriter.CreateGroupWithLinks", "hdf5.FileWriter.CreateDenseGroup", "hdf5.FileWriter.linkToParent"} {
+			fn := c.FnOpt(name)
+			if fn == nil || len(errorReturns(fn)) == 0 {
+				continue
+			}
+			n++
+			c.checkAtomicFailure(r, "C03.11", fn, isMut)
+		}
+		if n < 4 {
+			r.Errorf("C03.11: only %d creation entry points resolved", n)
 		}
 	})
 }
